@@ -32,7 +32,7 @@ ALL = SQF + CFG + PP
 CHAIN = dict([(f, "sqf") for f in SQF] + [(f, "cfg") for f in CFG] + [(f, "pp") for f in PP])
 ORDER = {f: n for n, f in enumerate(ALL)}
 CLASSES = ["recursive-macro", "recursive-include", "deep-nesting", "long-run", "comment-at-eof", "unterminated-string", "hash-line",
-           "define-empty-param", "eval-macro", "stray-directive", "macro-call-cut", "other"]
+           "define-empty-param", "define-open-string", "eval-macro", "stray-directive", "macro-call-cut", "other"]
 SATURATE = 10        # crashes of one (chain, construct class) after which the general exploration steers around the class
 WITNESSES = 20       # runs per (chain, named deviation predicted by Lex.tla) among the enumerated inputs
 BULK_BUDGET_MS = 1000
@@ -79,12 +79,8 @@ def lexer_class(text):
             j = text.find("*/", i + 2)
             if j < 0:
                 return "comment-at-eof"
-            i = j                                        # both tokenizers leave the closing `*/` in the input
-            if text.startswith("*//", i):
-                i += 1                                   # ... so `*//` starts a line comment
-            else:
-                i += 2
-            continue
+            i = j + 1                                    # both tokenizers leave the closing `*/` in the input: `*` is an operator
+            continue                                     # ... and the `/` may open the next comment (`*//`, `*/*`)
         if c == "#":
             rest = text[i:].lower()
             if "#line".startswith(rest):
@@ -113,6 +109,8 @@ def construct_class_(case, chain):
             return tag
         if _RE_DEF_EMPTY.search(text) or _RE_DEF_EMPTY2.search(text):
             return "define-empty-param"
+        if any(l.count('"') % 2 for l in re.findall(r"#[ \t]*define[^\n]*", text, re.I)):
+            return "define-open-string"
         if _RE_SELF.search(text):
             return "recursive-macro"
         if "__EVAL" in text or "__EXEC" in text:
@@ -315,6 +313,11 @@ def special_cases(quick):
         out.append(("deep-nesting", "#define X\n" + "#ifdef X\n" * depth + "a\n" + "#endif\n" * depth, PP))
         out.append(("deep-nesting", "#define X\n" + "#ifdef X\n" * depth, PP))
         out.append(("deep-nesting", "".join("#define M%d M%d\n" % (i, i + 1) for i in range(depth)) + "#define M%d 1\nM0\n" % depth, PP))
+    # an open string at the end of a macro body; a run of comment lines long enough to matter for per-token recursion
+    for t in ("#define X \"\nX", "#define X \"a\nv = X;\n", "#define X(a) \"a\nX(1)\n"):
+        out.append(("macro-call-cut", t, PP))
+    out.append(("long-run", "//\n" * 20000, SQF))
+    out.append(("long-run", "/**/ " * 20000, SQF))
     for n in ((2000,) if quick else (2000, 20000)):
         for unit in ("/**/", "//\n", "// c\n ", "\\\n", " ", "\n", ";", "a ", "\"\"", "''", "\"a\" ", "1 ", "#\n", ",", "=", "0x", "1e", "$", ".", "@", "\r\n", "/* c */ ", "a\\\n"):
             out.append(("long-run", unit * n, SQF + PP if unit not in ("#\n",) else PP))
@@ -350,7 +353,6 @@ def scale_families(quick):
         ("statements", "compile", lambda k: "a = 1;" * k, h),
         ("string", "sqftok", lambda k: '"' + "a" * (4 * k) + '"', m),
         ("nested-array", "cfgparse", lambda k: "class A { x[] = " + "{" * k + "1" + "}" * k + "; };", n),
-        ("nested-class", "cfgparse", lambda k: "".join("class C%d {" % i for i in range(k)) + "};" * k, n),
         ("value-tokens", "cfgparse", lambda k: "class A { x = " + "a " * k + "; };", m),
         ("array-elements", "cfgparse", lambda k: "class A { x[] = {" + "1," * k + "1}; };", m),
         ("fields", "cfgparse", lambda k: "class A {" + "x = 1;" * k + "};", h),
@@ -477,7 +479,7 @@ def run(rep, tier, seed, replay):
         "live inside the std::string object of the parsers, where the sanitizer cannot see an over-read - a sample is therefore also run with 17 blanks in front",
         "'time proportional to the input' is checked as a step bound on the model (Terminates: <= len+1 steps) and on the tokenizers (<= 4*len+16 calls of next()), as a wall-clock "
         "watchdog per front-end run (%d ms + 3 ms per byte beyond 1000 in the bulk run, at least %d ms when a failure is confirmed), and as TimeProportional: on the NORMAL build the "
-        "time per byte may grow at most 3x when a family input grows 4x (runs under 800 ms are not judged)" % (BULK_BUDGET_MS, CONFIRM_BUDGET_MS),
+        "time per byte may grow at most 2.5x when a family input grows 4x (verdict on the faster of two measurements) (runs under 800 ms are not judged)" % (BULK_BUDGET_MS, CONFIRM_BUDGET_MS),
         "symbol alphabet of Lex.tla: 21 symbols standing for g 0 e x line \" ' / * LF blank # . $ - = { } ; \\ @ ; keywords, tabs, CR, brackets other than {} are covered by the corpus only",
         "front ends: tokenizer::next loops (sqftok, cfgtok), parser_sqf().parse, parser_config().parse, parser_preprocessor().preprocess, and the operators compile / preprocess__ / "
         "configparse__ executed from a script that reads the text from a global variable; each run twice on fresh VMs (determinism)",
@@ -661,9 +663,10 @@ def run(rep, tier, seed, replay):
         # ---- 3c. sampled inputs, batched; a (chain, class) that failed SATURATE times is steered around
         saturated, crash_count, steered = set(), {}, 0
         bsize = 2500 if quick else 10000
-        for bn in range(0, len(sampled), bsize):
+        starts = [0] + list(range(2500, len(sampled), bsize))     # a small first batch: it finds the classes to steer around
+        for bi, bn in enumerate(starts):
             todo = []
-            for c in sampled[bn:bn + bsize]:
+            for c in sampled[bn:(starts[bi + 1] if bi + 1 < len(starts) else len(sampled))]:
                 which = [f for f in c["which"] if (CHAIN[f], construct_class(c, CHAIN[f])) not in saturated]
                 steered += len(c["which"]) - len(which)
                 if which:
@@ -681,7 +684,7 @@ def run(rep, tier, seed, replay):
                                     "observed": [{k: e[k] for k in ("fe", "ok", "nerr", "ntok", "same", "fin") if k in e} if e["e"] == "Obs" else {"crash": e.get("why")}
                                                  for e in evs if e["e"] in ("Obs", "Crash")]})
             judge(execs, "c10s%d" % bn)
-            phase("sampled batch %d: %d executions, %d rejections so far, saturated %s" % (bn // bsize, len(execs), len(bad), sorted(saturated)))
+            phase("sampled batch %d: %d executions, %d rejections so far, saturated %s" % (bi, len(execs), len(bad), sorted(saturated)))
         rep.extra["steered_around_front_end_runs"] = steered
         rep.extra["saturated_classes"] = sorted("%s/%s" % k for k in saturated)
     finally:
